@@ -11,7 +11,7 @@ CANARIES = ["canary.week52"]
 EXPLANATION = ("PROVED: DateTimeOperator.date_diff returns (d, sign) with len(d) >= 0 and first +- d == second for every pair of points; the comparison and difference operations it uses (shifting is C01/C05). STATIC: every operator call of main() sits under a handler that catches ValueError and exits with the message (with C09: explicit raises are ValueError subclasses). EXHAUSTIVE: calendar selection = option, else environment, else gregorian, whatever mode an earlier operator left. BOUNDED (whole-program I/O through argparse and stdout is outside any contract in reach): main(argv) stdout / exit status against the library calls for date-times in 9 notations x 0..3 offsets x 5 calendar selections, pairs with --as-total, recurrences with --max, --utc/--ref/environment, and malformed arguments in every positional slot (never a traceback).")
 ASSUMPTIONS = ["argparse, stdout, stdin, now, datetime fallbacks are external"]
 LEVEL_TEXT = "Library operations: proof; CLI plumbing: bounded grid. Hence other."
-LEVEL_NOTE = "see DESIGN section 5/C19"
+LEVEL_NOTE = "see DESIGN.md A.4 (as built) and section 5/C19 (plan)"
 
 
 def custom(tier, seed, repo):
